@@ -26,3 +26,51 @@ package ops
 
 //@ func ConvertNegativeAxis
 //@   ensures result == ite(axis < 0, rank + axis, axis)
+
+// ---------------------------------------------------------------------------------------
+// C15: the generic input gate. opmin / opmax / ncons / allowed evaluate the real getter bodies
+// of whatever operator type the value holds (closed world: the operators of this module).
+
+//@ spec is_input_error(err error, kind string) bool = typeof(err) == tagof("*ops.InputError") && unbox(err, "*ops.InputError").kind == kind
+//@ spec countok(op Operator, n int) bool = ite(opmin(op) == opmax(op), n == opmin(op), opmin(op) <= n && n <= opmax(op))
+//@ spec padlen(op Operator) int = ite(opmin(op) == opmax(op), opmin(op), opmax(op))
+//@ spec typesok(op Operator, inputs []tensor.Tensor, n int) bool = forall k :: 0 <= k && k < n && inputs[k] != nil ==> allowed(op, k, dtype(inputs[k]))
+
+//@ func newTypeConstraint
+//@   tags C15
+//@   ensures result != nil && fresh(result) && (forall d dtype :: d in result <==> (exists j :: 0 <= j && j < len(allowedTypes) && allowedTypes[j] == d))
+//@   loop 1 invariant typeConstraint != nil && fresh(typeConstraint) &&
+//@          (forall d dtype :: d in typeConstraint <==> (exists j :: 0 <= j && j < $i && allowedTypes[j] == d))
+
+//@ func padInputs
+//@   tags C15
+//@   ensures len(result) == ite(len(inputs) < length, length, len(inputs))
+//@   ensures forall k :: 0 <= k && k < len(inputs) ==> result[k] == inputs[k]
+//@   ensures forall k :: len(inputs) <= k && k < len(result) ==> result[k] == nil
+//@   loop 1 invariant ((base(inputs) == base(inputs0) && off(inputs) == off(inputs0)) || fresh(inputs)) &&
+//@          len(inputs) >= len(inputs0) && (len(inputs) == len(inputs0) || len(inputs) <= length) &&
+//@          (forall k :: 0 <= k && k < len(inputs0) ==> inputs[k] == inputs0[k]) &&
+//@          (forall k :: len(inputs0) <= k && k < len(inputs) ==> inputs[k] == nil)
+
+//@ func checkNInputs
+//@   tags C15
+//@   requires isoperator(op)
+//@   ensures (err == nil) <==> countok(op, len(inputs))
+//@   ensures err != nil ==> is_input_error(err, "count")
+//@   ensures err == nil ==> result0 == padlen(op)
+
+//@ func checkInputTypes
+//@   tags C15
+//@   requires isoperator(op) && len(inputs) <= ncons(op)
+//@   ensures (err == nil) <==> typesok(op, inputs, len(inputs))
+//@   ensures err != nil ==> is_input_error(err, "type")
+//@   loop 1 invariant typesok(op, inputs, $i)
+
+//@ func ValidateInputs
+//@   tags C15
+//@   requires isoperator(op) && opmax(op) <= ncons(op)
+//@   ensures count_refused: !countok(op, len(inputs)) ==> is_input_error(err, "count")
+//@   ensures type_refused: countok(op, len(inputs)) && !typesok(op, inputs, len(inputs)) ==> is_input_error(err, "type")
+//@   ensures accepted: countok(op, len(inputs)) && typesok(op, inputs, len(inputs)) ==> err == nil && len(result) == padlen(op) &&
+//@          (forall k :: 0 <= k && k < len(inputs) ==> result[k] == inputs[k]) &&
+//@          (forall k :: len(inputs) <= k && k < len(result) ==> result[k] == nil)
